@@ -6,6 +6,7 @@ import (
 	"fmt"
 	"os"
 	"sort"
+	"strconv"
 	"strings"
 	"testing"
 
@@ -257,10 +258,22 @@ func rapidHistoryOpts(t *rapid.T, prop string, cfg world.Cfg, weights map[string
 		live.S.Exclude("F-33")
 	}
 	g.Avoid = f33Avoid(cfg, avoid)
+	// one non-empty member in ten has a source that cannot be opened; one path operand of the
+	// filesystem-level calls in eight is spelled relative to the root (d/f, ./d/f)
+	g.FailingSources, g.RelSpell = 10, 8
+	if v := os.Getenv("VERIF_FAILSRC"); v != "" {
+		g.FailingSources, _ = strconv.Atoi(v)
+	}
+	if v := os.Getenv("VERIF_RELSPELL"); v != "" {
+		g.RelSpell, _ = strconv.Atoi(v)
+	}
 	n := rapid.IntRange(1, *maxSteps).Draw(t, "nsteps")
 	var params hist.Params
 	if opts.Overwrite || opts.TapeLikeWriter {
 		params = hist.Params{"overwrite": opts.Overwrite, "tape_like_writer": opts.TapeLikeWriter}
+		if opts.Probe != nil && opts.Probe.FailSeam == world.SeamOpenWriter {
+			params["failing_open_k"] = opts.Probe.FailK
+		}
 	}
 	// a quarter of the cases of checks that know the step swap the index for one rebuilt from
 	// the tape somewhere in the middle (a rebuilt index spells names relative to the root)
@@ -329,6 +342,10 @@ func TestReplay(t *testing.T) {
 	}
 	if b, _ := c.Params["tape_like_writer"].(bool); b {
 		opts.TapeLikeWriter = true
+	}
+	if k, ok := c.Params["failing_open_k"].(float64); ok && k > 0 {
+		opts.Probe = &world.Probe{}
+		opts.Probe.Arm(world.SeamOpenWriter, int(k), false)
 	}
 	if c.Property == "C06" || c.Property == "C16" {
 		opts.Probe = sharedProbe
